@@ -4901,7 +4901,7 @@ class CIMProperty(_CIMComparisonMixin, SlottedPickleMixin):
         """
         return CIMProperty(
             self.name,
-            self.value,
+            copy_.deepcopy(self.value),  # incl. embedded objects, references
             type=self.type,
             class_origin=self.class_origin,
             array_size=self.array_size,
@@ -6235,7 +6235,7 @@ class CIMParameter(_CIMComparisonMixin, SlottedPickleMixin):
             reference_class=self.reference_class,
             is_array=self.is_array,
             array_size=self.array_size,
-            value=self.value,
+            value=copy_.deepcopy(self.value),  # incl. embedded objects, refs
             embedded_object=self.embedded_object,
             qualifiers=self.qualifiers)  # setter copies
 
